@@ -245,7 +245,8 @@ impl TopicActor {
 
     fn delete(&mut self) -> Result<(), DeleteError> {
         if self.deleted {
-            return Ok(());
+            // Another request already deleted the topic; there is nothing left to delete.
+            return Err(DeleteError::Closed);
         }
 
         // Mark the topic as deleted.
